@@ -774,3 +774,56 @@ pub fn silence_stdio() {
 pub fn init_process() {
     kernel::install_panic_hook();
 }
+
+
+/// Determinism self-test: executes the same run indices in differently
+/// partitioned sets of fresh worker processes and compares the event-log
+/// fingerprint of every run.
+pub fn determinism(prop_id: &str, tier: Tier, root: u64, runs: u64) -> i32 {
+    let exe = std::env::current_exe().expect("current_exe");
+    let mut results: Vec<Vec<u64>> = vec![];
+    for (round, w) in [16usize, 5, 1].iter().enumerate() {
+        let outdir = crate::fsutil::scratch_base().join(format!("det{}", round));
+        let _ = fs::remove_dir_all(&outdir);
+        fs::create_dir_all(&outdir).unwrap();
+        let per = (runs + *w as u64 - 1) / *w as u64;
+        let mut children = vec![];
+        for k in 0..*w {
+            let from = k as u64 * per;
+            let to = ((k as u64 + 1) * per).min(runs);
+            if from >= to {
+                break;
+            }
+            let res = outdir.join(format!("w{}.json", k));
+            let child = Command::new(&exe)
+                .arg("worker").arg(prop_id).arg(tier_str(tier)).arg(root.to_string()).arg(from.to_string()).arg(to.to_string()).arg(&outdir).arg(&res).arg("--hashes")
+                .stdin(Stdio::null()).stdout(Stdio::null()).stderr(Stdio::null()).spawn().expect("spawn");
+            children.push((child, res));
+        }
+        let mut hashes = vec![];
+        for (mut c, res) in children {
+            let _ = c.wait();
+            match fs::read(&res).ok().and_then(|b| serde_json::from_slice::<WorkerSummary>(&b).ok()) {
+                Some(ws) => hashes.extend(ws.hashes),
+                None => {
+                    println!("determinism {}: a worker produced no result", prop_id);
+                    return 2;
+                }
+            }
+        }
+        let _ = fs::remove_dir_all(&outdir);
+        results.push(hashes);
+    }
+    let n = results[0].len();
+    let mut diverging = 0;
+    for r in &results[1..] {
+        if r.len() != n {
+            println!("determinism {}: different number of executions ({} vs {})", prop_id, r.len(), n);
+            return 1;
+        }
+        diverging += r.iter().zip(results[0].iter()).filter(|(a, b)| a != b).count();
+    }
+    let distinct: BTreeSet<u64> = results[0].iter().copied().collect();
+    println!("determinism {}: {} executions x 3 partitionings (16/5/1 processes), {} distinct fingerprints, {} diverging", prop_id, n, distinct.len(), diverging);
+    if diverging == 0 { 0 } else { 1 }
+}
